@@ -76,7 +76,8 @@ QuarterTurns(axis, k) == LET a == ((axis - 1) % 3) + 1
                          IN MatPow(Quarter(a), 3, kk)
 \* a third of a turn about (s1, s2, s3)/sqrt 3 carries s1 e1 -> s2 e2 -> s3 e3 -> s1 e1
 Third(s) == Mat(3, LAMBDA i, j : IF i = (j % 3) + 1 THEN s[j] * s[i] ELSE 0)
-ThirdTurns(s, k) == MatPow(Third(s), 3, k % 3)
+\* ... right-handedly when s1 s2 s3 = 1; a reflected diagonal (s1 s2 s3 = -1) turns the other way round
+ThirdTurns(s, k) == MatPow(Third(s), 3, (IF s[1] * s[2] * s[3] = 1 THEN k ELSE -k) % 3)
 Quarter2 == <<0, -1, 1, 0>>
 QuarterTurns2(k) == MatPow(Quarter2, 2, k % 4)
 
